@@ -887,6 +887,25 @@ pub fn generate_writer(name: &str, count: usize, rng: &mut Rng, out: &mut dyn Wr
                 i += 1;
             }
         }
+        // every length-carrying kind at 65535 / 65536 / 65538 bytes
+        "wbig" => {
+            let mut i = 0;
+            for size in [65535usize, 65536, 65538] {
+                for kind in 0..4 {
+                    if i >= count.max(1) * 12 { break; }
+                    let v = vec![(i as u8).wrapping_mul(37) | 1; size];
+                    let p = match kind {
+                        0 => Payload::Slice(v),
+                        1 => Payload::Tlv(Kind::Raw(0xE0 + kind as u8), v),
+                        2 => Payload::Pair(Kind::Named(Type::Authority), v),
+                        _ => Payload::Tlvs(v),
+                    };
+                    let pre = if i % 2 == 0 { vec![] } else { vec![7u8; 16] };
+                    n += run_writer(&format!("wbig-{}", i), &json!({"g": "wbig"}), &pre, &[p, Payload::Type(Type::NoOp)], out);
+                    i += 1;
+                }
+            }
+        }
         // around the writer's size limit (reported, not gating)
         "wlimit" => {
             for i in 0..count {
